@@ -197,6 +197,8 @@ impl PriceLookup {
                     .filter(|e| {
                         used_commodities.contains(&e.base_commodity)
                             && e.eq_commodity == in_commodity
+                            // a self pair is never applied, so it is not a rate of this report
+                            && e.base_commodity != in_commodity
                             // last-price: every entry counts, also one stamped at Timestamp::MAX
                             && (matches!(self, PriceLookup::LastPriceDbEntry)
                                 || e.timestamp < lookup_timestamp)
@@ -209,7 +211,11 @@ impl PriceLookup {
                 for comm in used_commodities {
                     let comm_cache: Vec<_> = price_db
                         .iter()
-                        .filter(|e| comm == e.base_commodity && e.eq_commodity == in_commodity)
+                        .filter(|e| {
+                            comm == e.base_commodity
+                                && e.eq_commodity == in_commodity
+                                && e.base_commodity != in_commodity
+                        })
                         .sorted_by_key(|e| &e.timestamp) // make sure it's sorted
                         .collect();
 
